@@ -168,7 +168,9 @@ pub fn run(o: &Opts) -> Report {
     let mut rng = Rng::new(o.seed ^ 0x14);
     let pool = mgen::build_pool(if o.thorough() { 5 } else { 2 });
     let ambiguous = ["CHASUS33", "DEUTDEFFXXX", "/12345678", "/12345678\nCHASUS33", "/12345678\nJOHN DOE", "1/JOHN DOE\n2/MAIN ST", "/12345678\n1/JOHN DOE", "JOHN DOE", "JOHN DOE\nMAIN ST",
-        "/C/12345678\nCHASUS33", "//FW021000021", "/FW021000021", "12345678\nCHASUS33", "PARTYID", "240315USD1000,00", "USD1000,00", "C240315USD1000,00", "", "/ACCOUNT\nBANKDEFF\nEXTRA", "ABCDEFGH12345678CHASUS33"];
+        "/C/12345678\nCHASUS33", "//FW021000021", "/FW021000021", "12345678\nCHASUS33", "PARTYID", "240315USD1000,00", "USD1000,00", "C240315USD1000,00", "", "/ACCOUNT\nBANKDEFF\nEXTRA", "ABCDEFGH12345678CHASUS33",
+        // blank-padded look-alikes: a blank is a character of 35x contents but not of a BIC or an account line
+        "DEUTDEFF ", " CHASUS33XXX", "CHASUS33  ", " /12345678", "/12345678 \nCHASUS33", "JOHN DOE ", " JOHN DOE", "DEUTDEFF\t"];
     for (name, base, family) in ENUMS {
         let mut contents: Vec<(String, String)> = Vec::new();
         for l in ["", "A", "B", "C", "D", "F", "G", "H", "K", "L", "M", "P"] {
